@@ -60,6 +60,7 @@ def run(chk: Check) -> None:
     ix = get_index()
     run_section_application(chk, ix)
     run_section_aliasing(chk, ix)
+    run_precedence_order(chk, ix)
     O = options_attrs(ix)
     mopt = ix.module("mypy.options")
     mcfg = ix.module("mypy.config_parser")
@@ -396,3 +397,42 @@ def run_section_aliasing(chk: Check, ix) -> None:
 
 def call_name_(c: ast.Call):
     return c.func.id if isinstance(c.func, ast.Name) else (c.func.attr if isinstance(c.func, ast.Attribute) else None)
+
+
+def run_precedence_order(chk: Check, ix) -> None:
+    """R17.8: the places where one configuration source is applied over another keep their order."""
+    from ..cfg import CFG, call_name
+    from ..pattern import has
+    r8 = chk.rule("R17.8", "precedence by construction: the config file is parsed into the Options object before the command line is parsed over it; per-module resolution applies structured sections before unstructured ones and wildcards before concrete names; inline `# mypy:` comments are applied on top of the per-module clone (apply_changes on self.options)", floor=4)
+    po = ix.func("mypy.main.process_options")
+    g = CFG(po.node)
+    cfgp = [n for n in g.nodes if any(call_name(c) == "parse_config_file" for c in n.calls())]
+    finals = [n for n in g.nodes if any(call_name(c) == "parse_args" and any(isinstance(a, ast.Call) and call_name(a) == "SplitNamespace" for a in c.args) for c in n.calls())]
+    if not cfgp or not finals:
+        raise AnalysisError("process_options: parse_config_file / final parse_args not found")
+    key = "process_options: parse_config_file(options, ...) runs before parser.parse_args(args, SplitNamespace(options, ...))"
+    if all(g.must_pass(g.entry, [f_], cfgp, labels_excluded=("exc",)) for f_ in finals) and not any(c in g.reachable(finals, labels_excluded=("exc",)) for c in cfgp):
+        r8.ok(key, po.loc(finals[0].stmt))
+    else:
+        r8.violation(key, po.loc(finals[0].stmt), "the command line is no longer parsed over the values read from the config file: a config-file global can override an explicit flag")
+    cfm = ix.func("mypy.options.Options.clone_for_module")
+    loops = [l for l in cfm.node.body if isinstance(l, ast.For) or (isinstance(l, ast.If) and any(isinstance(x, ast.For) for x in ast.walk(l)))]
+    struct = [i for i, st in enumerate(cfm.node.body) if any(isinstance(x, ast.Subscript) and "_per_module_cache" in norm(x.value) for x in ast.walk(st)) and isinstance(st, ast.For)]
+    unstr = [i for i, st in enumerate(cfm.node.body) if any("_glob_options" in norm(x) for x in ast.walk(st) if isinstance(x, ast.Attribute))]
+    key = "clone_for_module: structured wildcard lookup first, unstructured glob sections applied on top of it"
+    if struct and unstr and max(struct) < min(unstr):
+        r8.ok(key, cfm.loc(cfm.node.body[min(unstr)]))
+    else:
+        r8.violation(key, cfm.loc(), "unstructured sections are no longer applied after (on top of) the structured wildcard result: the documented precedence between `foo.*` and `*.bar` sections is reversed or lost")
+    bpc = ix.func("mypy.options.Options.build_per_module_cache")
+    key = "build_per_module_cache: wildcards (sorted, so `foo.*` before `foo.bar.*`) are processed before concrete sections"
+    if has(bpc.node, "$w = sorted(($k for $k in $sk if $k.endswith('.*')))") and any(isinstance(l, ast.For) and norm(l.iter).replace(" ", "") in ("wildcards+concrete",) for l in ast.walk(bpc.node)):
+        r8.ok(key, bpc.loc())
+    else:
+        r8.violation(key, bpc.loc(), "the processing order of structured sections changed: a less specific wildcard may now override a more specific one or a concrete section")
+    aic = ix.func("mypy.build.State.apply_inline_configuration")
+    key = "apply_inline_configuration: inline settings are applied onto the module's own (already per-module) options"
+    if has(aic.node, "$c, $e = parse_mypy_comments(flags, self.options)", "self.options = self.options.apply_changes($c)"):
+        r8.ok(key, aic.loc())
+    else:
+        r8.violation(key, aic.loc(), "inline `# mypy:` settings are no longer applied on top of the per-module options of this file")
